@@ -579,3 +579,26 @@ pub fn case_from_json(v: &serde_json::Value) -> Result<StateCase, String> {
     plan.resize(steps, None);
     Ok(StateCase { spec, plan, steps })
 }
+
+// ---------------------------------------------------------------------------------
+// Running ProgGen programs
+
+use crate::gen::exec::ExecProg;
+
+pub fn spec_for_prog(p: &ExecProg, real_traps: bool, debug_frames: bool, init: MachineInitStrategy) -> MachineSpec {
+    let mut s = MachineSpec::default();
+    s.real_traps = real_traps;
+    s.debug_frames = debug_frames;
+    s.init = init;
+    s.pc = p.origin;
+    s.psr = 0x8002;
+    s.saved_sp = 0x3000;
+    s.overlay = p.words.iter().enumerate().map(|(i, w)| (p.origin.wrapping_add(i as u16), *w)).collect();
+    s.kbd = Some(p.kbd.clone());
+    s.display = true;
+    s
+}
+
+pub fn describe_prog(p: &ExecProg) -> serde_json::Value {
+    serde_json::json!({"listing": p.listing, "keyboard_first_bytes": p.kbd.iter().take(8).collect::<Vec<_>>(), "keyboard_len": p.kbd.len(), "ending": format!("{:?}", p.ending)})
+}
